@@ -19,6 +19,8 @@ for line in sys.stdin:
     n = os.path.basename(r['seed'].rstrip('/'))
     if '/out2-' in r['seed']:
         n = 'r2-' + n
+    if '/out5-' in r['seed']:
+        n = 'r5-' + n
     dst = '/verif/seeded/%s-%s' % (prop, n)
     os.makedirs(dst, exist_ok=True)
     for f in ('patch.diff', 'demo.py'):
